@@ -104,6 +104,9 @@ func loadVersionTable(c *fw.Ctx, rule string) *versionTable {
 func (t *versionTable) cell(ver, field string) string {
 	v, ok := t.rows[ver][field]
 	if !ok {
+		if t.fieldT[field] == nil {
+			return "<unrecognised: the table has no field " + field + ">"
+		}
 		if _, isSig := t.fieldT[field].Underlying().(*types.Signature); isSig {
 			return "nil"
 		}
